@@ -105,9 +105,23 @@ class Bam(Exception):
     pass
 
 
+class DataErr(Exception):
+    """An ordinary user exception that happens to carry attributes named like ErrorObject fields."""
+
+    def __init__(self, msg, data=b"\x00raw", stack_trace=("not", "a", "trace")):
+        super().__init__(msg)
+        self.data = data
+        self.stack_trace = stack_trace
+
+
+class DataErrSet(DataErr):
+    def __init__(self, msg):
+        super().__init__(msg, data={1, 2}, stack_trace={"k": object()})
+
+
 def exc_class(name):
     from aws_durable_execution_sdk_python import exceptions as X
-    table = {"Boom": Boom, "Bam": Bam, "ValueError": ValueError, "KeyError": KeyError,
+    table = {"Boom": Boom, "Bam": Bam, "DataErr": DataErr, "DataErrSet": DataErrSet, "ValueError": ValueError, "KeyError": KeyError,
              "RuntimeError": RuntimeError, "TypeError": TypeError}
     if name in table:
         return table[name]
@@ -252,6 +266,11 @@ class Interp:
                 core.cur().block(lambda: False, None, on=("user", "forever"))
             else:
                 prims.vtime.sleep(beh["sleep"])
+            return self._beh(beh.get("then", {"ret": None}), path, ent, item)
+        if "item_sleep" in beh:   # map bodies: the function of item i runs item_sleep[i] seconds
+            d_ = beh["item_sleep"][item if isinstance(item, int) else 0]
+            if d_:
+                prims.vtime.sleep(d_)
             return self._beh(beh.get("then", {"ret": None}), path, ent, item)
         if "fail" in beh:
             attempt = ent["attempt"] + 1
@@ -630,6 +649,8 @@ def _check_fn(spec, state, ent):
     f = spec.get("fn", "inc")
     if "raise_at" in spec and ent["attempt"] + 1 == spec["raise_at"]:
         raise make_exc(spec.get("cls", "Boom"), "check-failed")
+    if "unser_at" in spec and ent["attempt"] + 1 == spec["unser_at"]:
+        return object()   # a state the configured serialization cannot store
     if f == "inc":
         if isinstance(state, bool) or not isinstance(state, int):
             return state
